@@ -352,6 +352,12 @@ class OutProtocolBase(ProtocolMixin):
         elif cls_attrs.format is not None:
             return cls_attrs.format % value
 
+        # the xs:double spellings of the special values
+        if value != value:
+            return 'NaN'
+        if value in (float('inf'), float('-inf')):
+            return 'INF' if value > 0 else '-INF'
+
         return repr(value)
 
     def integer_to_bytes(self, cls, value, **_):
